@@ -166,6 +166,203 @@ def _enclosing(path, line):
     return name
 
 
+# ---------------------------------------------------------------------------------------------------
+# The probe.  When an area ends "bridge-broken" (the source translated, a lemma of the bridge fails) the
+# translated ROOT functions - whose names and signatures refactorings keep - are evaluated inside Coq
+# (vm_compute, one coqc call) against the model functions on a corpus: a fixed list plus pseudo-random
+# inputs from the run's seed.  The status then says either "K of N inputs differ, first: <input>" (code
+# and model disagree: a concrete input) or "agrees on N inputs" (the proof script no longer fits the
+# generated definitions: the bridge needs maintenance).  A probe file refers to roots only.
+PROBE_TIMEOUT = 120
+_WORDS_L = ["id", "user", "name", "http", "url", "x", "ab", "json", "v", "get", "case", "is"]
+_WORDS_C = ["Id", "User", "Name", "Http", "Url", "X", "Ab", "Json", "V", "Get", "Case", "Is"]
+_WORDS_U = ["ID", "HTTP", "URL", "JSON", "XML", "API", "IP", "A", "AB", "DB", "UUID"]
+_FIXED_STRINGS = [
+    "", "a", "A", "z", "Z", "0", "_", "__", "___", "ID", "id", "Id", "iD", "userID", "UserID", "userId", "user_id", "User_ID",
+    "HTTPServer", "httpServer", "HttpServer", "getHTTPResponse", "URL2Path", "url2path", "XMLHttpReq", "JSONData", "jsonDATA",
+    "X", "xY", "Xy", "XY", "XYz", "xYZ", "XyZ", "aBC", "ABc", "AbC", "abC", "_a", "a_", "_A", "A_", "a_b", "a__b", "A_B", "a_B", "A_b",
+    "_a_", "__a", "a__", "A1", "a1", "1a", "1A", "a1B", "A1b", "a1b2", "A1B2", "v2", "V2", "V2Ray", "IPv6", "IPV6Addr", "ipv6",
+    "x_1", "_1", "1_", "9", "99", "snake_case", "Snake_Case", "SNAKE_CASE", "SNAKE_case", "mixed_CaseID", "aB_cD", "AB_CD", "ab_cd",
+    "ABC", "ABCD", "ABCDe", "ABCde", "aBCDe", "abcde", "Abcde", "ABCDEFGHIJKL", "abcdefghijkl", "aAaAaAaAaAaA", "A_A_A_A_A_A_",
+    "ID_", "_ID", "ID_ID", "IDs", "IDS", "iDs", "URLs", "UrlS", "a0A", "A0a", "A0A", "a0a", "aA0", "Aa0", "AA0", "aa0", "0aA", "0Aa",
+]
+
+
+def _rand_strings(seed, k):
+    import random
+    rnd = random.Random("probe-%s" % seed)
+    alpha = "abcxyzABCXYZ019__"
+    out = []
+    while len(out) < k:
+        if rnd.random() < 0.55:
+            s = ""
+            while len(s) < rnd.randint(1, 12):
+                pool = rnd.choice([_WORDS_L, _WORDS_C, _WORDS_U, ["_"], ["_"], ["0", "1", "2", "42"]])
+                s += rnd.choice(pool)
+            s = s[:12]
+        else:
+            s = "".join(rnd.choice(alpha) for _ in range(rnd.randint(1, 12)))
+        out.append(s)
+    return out
+
+
+def _coq_strings(l):
+    return "[" + "; ".join('"%s"' % x for x in l) + "]"
+
+
+def _probe_transfer(seed):
+    corpus = list(dict.fromkeys(_FIXED_STRINGS + _rand_strings(seed, 400)))
+    import random
+    rnd = random.Random("probe-pairs-%s" % seed)
+    pairs = []
+    for x in corpus[:260]:
+        pairs += [(x, x), (x, x.lower()), (x, x.replace("_", "")), (x, x[:1].lower() + x[1:]), (x, rnd.choice(corpus))]
+    pairs = list(dict.fromkeys(pairs))[:900]
+    txt = """From Coq Require Import List ZArith Bool String Ascii.
+From Shoot Require Import Base.Str Model.Transfer Bridge.GoPrims.
+From ShootGen Require Import TransferGen.
+Import ListNotations.
+Local Open Scope string_scope.
+Definition show (o : outcome string) : string :=
+  match o with Returned s => "returns " ++ s | Panicked _ => "PANICS" | OutOfFuel => "OUT OF FUEL" end.
+Definition showl (o : outcome (list string)) : string :=
+  match o with Returned l => "returns " ++ String.concat "|" l | Panicked _ => "PANICS" | OutOfFuel => "OUT OF FUEL" end.
+Definition showb (o : outcome bool) : string :=
+  match o with Returned true => "returns true" | Returned false => "returns false" | Panicked _ => "PANICS" | OutOfFuel => "OUT OF FUEL" end.
+Definition chk (f input got want : string) : list (string * string * string * string) :=
+  if String.eqb got want then [] else [(f, input, got, want)].
+Definition corpus : list string := %s.
+Definition pairs : list (string * string) := %s.
+Definition bytes : list ascii := map ascii_of_nat (seq 0 256).
+Definition byte_name (b : ascii) : string := String b "".
+Definition tf (b : bool) : string := if b then "true" else "false".
+Definition bad : list (string * string * string * string) :=
+  List.concat [
+    flat_map (fun s => List.concat [
+       chk "FirstLowerLetter" s (show (fst (FirstLowerLetter s tt))) ("returns " ++ first_lower_letter s);
+       chk "ToPascalCase" s (show (fst (ToPascalCase s tt))) ("returns " ++ to_pascal_case s);
+       chk "splitCamelTokensASCII" s (showl (fst (splitCamelTokensASCII s tt))) ("returns " ++ String.concat "|" (split_camel_tokens s));
+       chk "ToCamelCase" s (show (fst (ToCamelCase s tt))) ("returns " ++ to_camel_case s);
+       chk "ToCamelCaseGO" s (show (fst (ToCamelCaseGO s tt))) ("returns " ++ to_camel_case_go s)]) corpus;
+    flat_map (fun p => chk "smartMatch" (fst p ++ " , " ++ snd p) (showb (fst (smartMatch (fst p) (snd p) tt)))
+                           ("returns " ++ tf (smart_match (fst p) (snd p)))) pairs;
+    flat_map (fun b => List.concat [
+       chk "IsUpper" (byte_name b) (tf (IsUpper b)) (tf (is_upper b)); chk "IsLower" (byte_name b) (tf (IsLower b)) (tf (is_lower b));
+       chk "ToUpper" (byte_name b) (byte_name (ToUpper b)) (byte_name (to_upper_c b));
+       chk "ToLower" (byte_name b) (byte_name (ToLower b)) (byte_name (to_lower_c b))]) (map ascii_of_nat (seq 32 95)) ].
+Eval vm_compute in ("PROBE_COUNT", List.length bad).
+Eval vm_compute in ("PROBE_FIRST", firstn 4 bad).
+""" % (_coq_strings(corpus), "[" + "; ".join('("%s", "%s")' % p for p in pairs) + "]")
+    return txt, 5 * len(corpus) + len(pairs) + 4 * 95
+
+
+def _probe_retry(seed):
+    import random
+    rnd = random.Random("probe-retry-%s" % seed)
+
+    def out():
+        k = rnd.random()
+        st = rnd.choice([200, 204, 301, 404, 499, 500, 501, 503, 599, 0, -1, 1000])
+        if k < 0.5:
+            return "RResp {| r_id := %d%%nat; r_status := (%d) |}" % (rnd.randint(0, 9), st)
+        if k < 0.8:
+            return "RErr %d%%nat None" % rnd.randint(0, 9)
+        return "RErr %d%%nat (Some {| r_id := %d%%nat; r_status := (%d) |})" % (rnd.randint(0, 9), rnd.randint(0, 9), st)
+    cases = []
+    rr = lambda i, st: "RResp {| r_id := %d%%nat; r_status := (%d) |}" % (i, st)
+    fixed = [[], [rr(1, 200)], [rr(1, 500)], ["RErr 1%nat None"], [rr(1, 499)], ["RErr 1%nat None", rr(2, 200)],
+             [rr(1, 503), rr(2, 503), rr(3, 200)], [rr(1, 500), rr(2, 499)], ["RErr 1%nat (Some " + rr(4, 200)[6:] + ")", rr(2, 200)]]
+    for sc in fixed:
+        for n in (-2, -1, 0, 1, 2, 3, 5):
+            cases.append((n, sc))
+    for _ in range(300):
+        cases.append((rnd.randint(-2, 7), [out() for _ in range(rnd.randint(0, 8))]))
+    body = "; ".join("((%d), [%s])" % (n, "; ".join(sc)) for n, sc in cases)
+    txt = """From Coq Require Import List ZArith Bool.
+From Shoot Require Import Model.Retry Bridge.RetryPrims.
+From ShootGen Require Import RetryGen.
+Import ListNotations.
+Local Open Scope Z_scope.
+Definition eresp (r : resp) : list Z := [Z.of_nat (r_id r); r_status r].
+Definition eres (x : option resp * option nat) : list Z :=
+  (match fst x with Some r => 1%%Z :: eresp r | None => [0%%Z] end) ++ (match snd x with Some e => [1%%Z; Z.of_nat e] | None => [0%%Z] end).
+Definition eev (e : event) : Z := match e with ESleep => (-1)%%Z | ECall i => Z.of_nat i end.
+Fixpoint zs_eqb (a b : list Z) : bool :=
+  match a, b with [], [] => true | x :: a', y :: b' => Z.eqb x y && zs_eqb a' b' | _, _ => false end.
+Definition dflt : rt_out := RErr 99%%nat None.
+(* what a run does, as a list of numbers: outcome (9 result | 7 panic | 8 out of fuel), calls, events *)
+Definition got (n : Z) (sc : list rt_out) : list Z :=
+  let '(o, w) := RetryMiddleware n 5%%Z (init_world (script_of sc dflt)) in
+  (match o with Returned r => 9%%Z :: eres r | Panicked _ => [7%%Z] | OutOfFuel => [8%%Z] end)
+  ++ [Z.of_nat (w_calls w)] ++ map eev (w_events w).
+Definition want (n : Z) (sc : list rt_out) : list Z :=
+  let '(ev, r) := retry n (script_of sc dflt) in (9%%Z :: eres r) ++ [Z.of_nat (calls ev)] ++ map eev ev.
+Definition eout (o : rt_out) : list Z :=
+  match o with RResp r => 100%%Z :: eresp r | RErr e None => [200%%Z; Z.of_nat e] | RErr e (Some r) => 300%%Z :: Z.of_nat e :: eresp r end.
+Definition cases : list (Z * list rt_out) := [%s].
+Definition bad := flat_map (fun c => if zs_eqb (got (fst c) (snd c)) (want (fst c) (snd c)) then []
+                                     else [(fst c, map eout (snd c), got (fst c) (snd c), want (fst c) (snd c))]) cases.
+Eval vm_compute in (0, Z.of_nat (List.length bad), 424242).
+Eval vm_compute in (1, firstn 3 bad, 424242).
+""" % body
+    return txt, len(cases)
+
+
+PROBES = {"transfer": _probe_transfer, "retry": _probe_retry}
+
+
+def _probe(area, base, gen):
+    mk = PROBES.get(area)
+    if mk is None:
+        return None
+    seed = os.environ.get("VERIF_SEED", "0")
+    txt, n = mk(seed)
+    p = gen / "Probe.v"
+    p.write_text(txt)
+    rc, out, err = lib.sh(base + [str(p)], cwd=gen, timeout=PROBE_TIMEOUT)
+    if rc != 0:
+        _, line, msg = _first_error(out + err) if rc != 124 else (None, 0, "coqc did not finish within %d s" % PROBE_TIMEOUT)
+        return {"inputs": 0, "seed": seed, "error": "the probe does not compile against the translated roots (line %s): %s" % (line, msg)}
+    flat = " ".join(out.split())
+    if area == "retry":
+        m = re.search(r"\(0, (\d+), 424242\)", flat)
+        first = re.search(r"\(1, (.*?), 424242\)", flat)
+        dis = []
+        if m and int(m.group(1)) > 0 and first:
+            legend = ("script entries: 100 id status = a response | 200 e = an error | 300 e id status = both; behaviour: 9 = returned, "
+                      "1 id status | 0 = response or nil, 1 e | 0 = error or nil, number of calls, events (i = call i, -1 = sleep)")
+            for n_, sc, g, w in re.findall(r"\((-?\d+), (\[(?:\[[^\]]*\](?:; )?)*\]), (\[[^\]]*\]), (\[[^\]]*\])\)", first.group(1)):
+                dis.append({"function": "RetryMiddleware", "input": "maxRetries=%s script=%s" % (n_, sc), "translated": g, "model": w,
+                            "legend": legend})
+        return {"inputs": n, "seed": seed, "differ": int(m.group(1)) if m else -1, "disagreements": dis}
+    m = re.search(r'\("PROBE_COUNT", (\d+)\)', flat)
+    first = re.search(r'\("PROBE_FIRST", (.*?)\) : string \*', flat)
+    dis = []
+    if first:
+        for f, i, g, w in re.findall(r'\("([^"]*)", "([^"]*)", "([^"]*)", "([^"]*)"\)', first.group(1)):
+            dis.append({"function": f, "input": i, "translated": g, "model": w})
+    return {"inputs": n, "seed": seed, "differ": int(m.group(1)) if m else -1, "disagreements": dis}
+
+
+def _probe_text(pr):
+    if pr is None:
+        return ""
+    if pr.get("error"):
+        return "; probe: " + pr["error"]
+    if pr.get("differ", -1) < 0:
+        return "; probe: no answer"
+    if pr["differ"] == 0:
+        return "; probe: agrees on %d inputs (proof script no longer fits the generated definitions)" % pr["inputs"]
+    d = pr["disagreements"][0] if pr["disagreements"] else {}
+    if "function" in d:
+        first = '%s("%s") %s, model: %s' % (d["function"], d["input"], d["translated"], d["model"])
+        if d.get("legend"):
+            first += " (" + d["legend"] + ")"
+    else:
+        first = " ".join(str(v) for v in d.values())[:300]
+    return "; probe: %d of %d inputs differ, first: %s" % (pr["differ"], pr["inputs"], first)
+
+
 def translation_tie(run, area):
     t0 = time.time()
     spec = AREAS.get(area)
@@ -238,8 +435,10 @@ def translation_tie(run, area):
                    functions=info["functions"])
     if rc != 0:
         f, line, msg = _first_error(out + err)
-        return res("bridge-broken: %s (%s:%s): %s" % (_enclosing(bridge, line or 0), bridge.name, line, msg),
-                   functions=info["functions"], generated=genfile.read_text()[:6000])
+        pr = _probe(area, base, gen)
+        kw = {"probe": pr} if pr is not None else {}
+        return res("bridge-broken: %s (%s:%s): %s%s" % (_enclosing(bridge, line or 0), bridge.name, line, msg, _probe_text(pr)),
+                   functions=info["functions"], generated=genfile.read_text()[:6000], **kw)
     txt = lib.strip_comments(bridge.read_text())
     n_print = len(re.findall(r"Print\s+Assumptions", txt))
     closed = out.count("Closed under the global context")
